@@ -17,13 +17,19 @@ package anthropic
 //@   ensures finishReason == "tool_calls" ==> res == "tool_use"
 //@   ensures finishReason == "length" ==> res == "max_tokens"
 
+// usage and model are mapped consistently: prompt -> input, completion -> output, absent or non-numeric -> 0;
+// the model name is the backend's, "unknown" when it gives none
 //@ func (t *Translator) convertUsage
 //@   property C13 C20
 //@   safety
+//@   ensures !typeis(usage["prompt_tokens"], "float64") ==> res.InputTokens == 0
+//@   ensures !typeis(usage["completion_tokens"], "float64") ==> res.OutputTokens == 0
 
 //@ func (t *Translator) extractModel
 //@   property C13 C20
 //@   safety
+//@   ensures typeis(resp["model"], "string") ==> res == asString(resp["model"])
+//@   ensures !typeis(resp["model"], "string") ==> res == "unknown"
 
 //@ func (t *Translator) convertToToolUse
 //@   property C13 C20
